@@ -50,7 +50,14 @@ def env():
             k: str
             v: int = 0
 
-        _ENV.update(It=It, KeyedList=KeyedList, Tuple=Tuple)
+        from spec_classes import Attr
+
+        @spec_class(key="k", bootstrap=True)
+        class It2:  # the key takes no part in equality: items with different keys compare equal
+            k: str = Attr(compare=False)
+            v: int = 0
+
+        _ENV.update(It=It, It2=It2, KeyedList=KeyedList, Tuple=Tuple)
     return _ENV
 
 
@@ -77,6 +84,8 @@ class Universe:
             return (ki * 10, p)
         if n == "spec":
             return env()["It"](KEYS[ki], v=p)
+        if n == "eqspec":
+            return env()["It2"](KEYS[ki], v=p)
         raise AssertionError(n)
 
     def keyfn(self):
@@ -112,7 +121,7 @@ class Universe:
             return KL[tuple, str]
         if n == "tupleint":
             return KL[tuple, int]
-        return KL[env()["It"], str]
+        return KL[env()["It2" if n == "eqspec" else "It"], str]
 
     def bad_items(self):
         """(label, object) pairs that a typed list must reject with TypeError."""
@@ -143,6 +152,8 @@ def universes(nkeys):
         "tuple": Universe("tuple", nkeys, [0, 1]),
         "tupleint": Universe("tupleint", nkeys, [0, 1]),
         "spec": Universe("spec", nkeys, [0, 1]),
+        # equal items under different keys: position lookups go by key, never by equality of the items
+        "eqspec": Universe("eqspec", nkeys, [0]),
     }
 
 
@@ -806,7 +817,7 @@ def coverage_extra(tier, counters):
     b = BOUNDS[tier]
     return {
         "exhaustive": True,
-        "exhaustive_scope": f"every single op from every container of <= {b['n1']} items over {b['nkeys']} keys x 5 universes x typed/untyped; "
+        "exhaustive_scope": f"every single op from every container of <= {b['n1']} items over {b['nkeys']} keys x 6 universes x typed/untyped; "
         f"every (write, any) 2-op sequence from containers of <= {b['n2']} items; Hypothesis op lists (<= 25 ops) beyond",
     }
 
